@@ -57,6 +57,7 @@ func engxOptions(gs *pokerface.GameState) []opSpec {
 
 func runEngineExhaustive(dir string, part, parts int) {
 	o := NewOut(dir, "engx")
+	wdWatch(o, dir, "engx", uint64(part))
 	seenState := map[[20]byte]bool{}
 	tieBoard := []string{"ST", "HJ", "DQ", "CK", "SA"}
 	base := pokerface.NewStandardDeckCards()
